@@ -54,7 +54,7 @@ def _odf_manifest_variant(plain: bytes, variant: str) -> bytes:
                 enc = ('<manifest:encryption-data manifest:checksum-type="urn:oasis:names:tc:opendocument:xmlns:manifest:1.0#sha256-1k" manifest:checksum="AAAA">'
                        '<manifest:algorithm manifest:algorithm-name="http://www.w3.org/2001/04/xmlenc#aes256-cbc" manifest:initialisation-vector="AAAA"/>'
                        '<manifest:key-derivation manifest:key-derivation-name="PBKDF2" manifest:key-size="32" manifest:iteration-count="100000" manifest:salt="AAAA"/></manifest:encryption-data>')
-                if variant in ("encrypted", "encrypted-utf16-manifest", "encrypted-utf16be-manifest"):
+                if variant in ("encrypted", "encrypted-utf16-manifest", "encrypted-utf16be-manifest", "encrypted-doctype-manifest"):
                     text = text.replace('<manifest:file-entry manifest:full-path="content.xml" manifest:media-type="text/xml"/>',
                                         f'<manifest:file-entry manifest:full-path="content.xml" manifest:media-type="text/xml" manifest:size="123">{enc}</manifest:file-entry>')
                 elif variant == "encrypted-other-prefix":
@@ -65,6 +65,14 @@ def _odf_manifest_variant(plain: bytes, variant: str) -> bytes:
                     text = text.replace("</manifest:manifest>", '<manifest:file-entry manifest:full-path="Pictures/encryption-data-diagram.png" manifest:media-type="image/png"/></manifest:manifest>')
                 elif variant == "plain-comment-contains-trigger":
                     text = text.replace("</manifest:manifest>", "<!-- no manifest:algorithm here, this file is not encrypted --></manifest:manifest>")
+                if "doctype" in variant:
+                    # the DOCTYPE line OpenOffice.org 1.x/2.x wrote into every manifest (no internal subset, no entities)
+                    import re as _re
+                    decl = _re.match(r"^<\?xml[^>]*\?>\s*", text)
+                    head = decl.group(0) if decl else ""
+                    text = head + '<!DOCTYPE manifest:manifest PUBLIC "-//OpenOffice.org//DTD Manifest 1.0//EN" "Manifest.dtd">\n' + text[len(head):]
+                    if "name-contains-trigger" in variant:
+                        text = text.replace("</manifest:manifest>", '<manifest:file-entry manifest:full-path="Pictures/encryption-data-flow.png" manifest:media-type="image/png"/></manifest:manifest>')
                 data = text.encode()
                 if "utf16" in variant:
                     # the same manifest in another legal XML encoding: UTF-16 with byte-order mark (and a declaration saying so)
@@ -302,7 +310,8 @@ def gen_cases(run):
             for variant in ("both", "info-only", "package-only"):
                 yield mk(mech="ooxml-cfb", fmt=fmt, variant=variant, seed=base + r)
         for fmt in ("odt", "odp", "ods", "odg"):
-            for variant in ("encrypted", "encrypted-other-prefix", "encrypted-utf16-manifest", "encrypted-utf16be-manifest", "plain-utf16-manifest", "plain-name-contains-trigger", "plain-comment-contains-trigger"):
+            for variant in ("encrypted", "encrypted-other-prefix", "encrypted-utf16-manifest", "encrypted-utf16be-manifest", "plain-utf16-manifest", "plain-name-contains-trigger", "plain-comment-contains-trigger",
+                            "plain-doctype-manifest", "plain-doctype-manifest+name-contains-trigger", "encrypted-doctype-manifest"):
                 yield mk(mech="odf-manifest", fmt=fmt, variant=variant, seed=base + r)
         yield mk(mech="ole-flag", fmt="doc", variant="fib-flag", seed=base + r)
         yield mk(mech="ole-flag", fmt="doc", variant="fib-flag-word95-signature", seed=base + r)
